@@ -5,6 +5,7 @@ package main
 // implementation's canonical observables.  Monitors hook into transaction and block events.
 
 import (
+	"bytes"
 	"encoding/base64"
 	"encoding/json"
 	"encoding/hex"
@@ -82,6 +83,10 @@ type Exec struct {
 	genLine  []string            // the pending "# GENESIS" parameters; the chain is built lazily
 	genAol   *aoltypes.GenesisState
 	Custom   map[string]json.RawMessage
+	Node     *nodeState // node profile: twin replica, commit hashes, background readers
+	qHeight  int64      // height of the query being served (QH), 0 = latest
+	WantNode bool
+	WantConc int
 }
 
 func NewExec(out *Out) *Exec {
@@ -285,7 +290,7 @@ func (x *Exec) Run(lines []string) {
 		}
 		if x.C == nil && x.genLine != nil {
 			switch f[0] {
-			case "BLOCK", "Q", "DUMP", "PAGE", "EXPORTIMPORT":
+			case "BLOCK", "Q", "DUMP", "PAGE", "EXPORTIMPORT", "CRASH", "QH":
 				x.genesis(x.genLine)
 			}
 		}
@@ -306,6 +311,9 @@ func (x *Exec) Run(lines []string) {
 			n, err := strconv.ParseInt(f[1], 10, 64)
 			must(err)
 			x.C.BeginBlock(time.Unix(0, n).UTC())
+			if x.Node != nil {
+				x.Node.blk = &twinBlock{nanos: n, afterRestart: x.Node.restarted}
+			}
 			x.Out.Decl("%s", l)
 		case "TX":
 			x.cur = &TxInfo{Fee: parseCoins(f[1])}
@@ -357,6 +365,10 @@ func (x *Exec) Run(lines []string) {
 			} else {
 				res := x.C.Deliver(bz)
 				result = x.C.canonResult(res)
+				if x.Node != nil && x.Node.blk != nil {
+					x.Node.blk.txs = append(x.Node.blk.txs, bz)
+					x.Node.blk.res = append(x.Node.blk.res, res)
+				}
 			}
 			x.Out.Cmd(l, result)
 			balAfter := x.watchBalances()
@@ -378,6 +390,41 @@ func (x *Exec) Run(lines []string) {
 				m.AfterTx(x, x.cur, result)
 			}
 			x.cur = nil
+		case "ENDCHECK", "ENDSIM":
+			for _, tl := range x.cur.Lines {
+				x.Out.Decl("%s", tl)
+			}
+			x.Out.Decl("%s", l)
+			if bz, err := x.C.BuildTx(x.cur.Top, x.cur.Signers, x.cur.Fee, x.mode); err == nil {
+				if f[0] == "ENDCHECK" {
+					r := x.C.App.CheckTx(abci.RequestCheckTx{Tx: bz, Type: abci.CheckTxType_New})
+					x.Stats[fmt.Sprintf("checktx:%v", r.Code == 0)]++
+				} else {
+					_, _, err := x.C.App.Simulate(bz)
+					x.Stats[fmt.Sprintf("simulate:%v", err == nil)]++
+				}
+			}
+			x.cur = nil
+		case "CRASH":
+			x.Out.Cmd(l, x.nodeCrash())
+		case "QH":
+			h, err := strconv.ParseInt(f[1], 10, 64)
+			must(err)
+			x.qHeight = h
+			var ans string
+			if h > x.C.App.LastBlockHeight() {
+				res := x.C.App.Query(abci.RequestQuery{Path: "/panacea.aol.v2.Query/Topics", Data: nil, Height: h})
+				if res.Code != 0 {
+					ans = "Q err height"
+				} else {
+					ans = "Q ok-at-uncommitted-height"
+				}
+			} else {
+				ans = x.query(append([]string{"Q"}, f[2:]...))
+			}
+			x.qHeight = 0
+			x.Out.Cmd(l, ans)
+			x.Stats["query-at-height"]++
 		case "ENDBLOCK":
 			burnAddr, _ := sdk.AccAddressFromBech32(burntypes.BurnAddress)
 			sp := x.C.App.BankKeeper.SpendableCoins(x.C.Ctx(), burnAddr)
@@ -391,9 +438,10 @@ func (x *Exec) Run(lines []string) {
 				bl += " " + x.C.App.BankKeeper.GetSupply(x.C.Ctx(), d).Amount.Sub(supBefore[i]).String()
 			}
 			x.BurnSpendableBefore = sp
-			x.C.App.Commit()
+			cres := x.C.App.Commit()
 			x.C.InBlock = false
 			x.Out.Cmd(l, bl)
+			x.nodeAfterCommit(cres.Data)
 			for _, m := range x.Mons {
 				m.AfterBlock(x)
 			}
@@ -623,6 +671,16 @@ func (x *Exec) genesis(f []string) {
 		custom["aol"] = app.MakeEncodingConfig().Codec.MustMarshalJSON(x.genAol)
 	}
 	x.C = NewChain(n, bals, custom, time.Unix(1700000000, 0).UTC())
+	if x.WantNode {
+		x.Node = &nodeState{twin: NewChain(n, bals, custom, time.Unix(1700000000, 0).UTC()), hashes: map[int64][]byte{}}
+		if !bytes.Equal(x.Node.twin.App.LastCommitID().Hash, x.C.App.LastCommitID().Hash) {
+			x.Flag("C09-diverge", "two applications initialised from the same genesis have different application hashes")
+		}
+		x.Node.hashes[1] = x.C.App.LastCommitID().Hash
+		if x.WantConc > 0 {
+			x.Node.conc = newConcurrent(x.C, concRequests(x.C.Accts), x.WantConc)
+		}
+	}
 	// accounts that exist after InitChain (a vesting account can only be created at an address without account)
 	x.C.App.AccountKeeper.IterateAccounts(x.C.Ctx(), func(acc authtypes.AccountI) bool {
 		x.Out.Decl("ENV account %s", tok(acc.GetAddress()))
@@ -831,7 +889,7 @@ func (x *Exec) pnftQuery(f []string) (string, bool) {
 	}() }
 	switch f[1] {
 	case "pnft.Denom":
-		res := x.C.Query("/panacea.pnft.v2.Query/Denom", &pnfttypes.QueryDenomRequest{Id: s(f[2])}, 0)
+		res := x.C.Query("/panacea.pnft.v2.Query/Denom", &pnfttypes.QueryDenomRequest{Id: s(f[2])}, x.qHeight)
 		if res.Code != 0 {
 			return pnftQueryErr(res), true
 		}
@@ -839,7 +897,7 @@ func (x *Exec) pnftQuery(f []string) (string, bool) {
 		must(r.Unmarshal(res.Value))
 		return "Q ok " + denomStr(r.Denom), true
 	case "pnft.PNFT":
-		res := x.C.Query("/panacea.pnft.v2.Query/PNFT", &pnfttypes.QueryPNFTRequest{DenomId: s(f[2]), Id: s(f[3])}, 0)
+		res := x.C.Query("/panacea.pnft.v2.Query/PNFT", &pnfttypes.QueryPNFTRequest{DenomId: s(f[2]), Id: s(f[3])}, x.qHeight)
 		if res.Code != 0 {
 			return pnftQueryErr(res), true
 		}
@@ -848,7 +906,7 @@ func (x *Exec) pnftQuery(f []string) (string, bool) {
 		x.declOwnerStr(r.Pnft.Owner)
 		return "Q ok " + pnftStr(r.Pnft), true
 	case "pnft.PNFTs":
-		res := x.C.Query("/panacea.pnft.v2.Query/PNFTs", &pnfttypes.QueryPNFTsRequest{DenomId: s(f[2])}, 0)
+		res := x.C.Query("/panacea.pnft.v2.Query/PNFTs", &pnfttypes.QueryPNFTsRequest{DenomId: s(f[2])}, x.qHeight)
 		if res.Code != 0 {
 			return pnftQueryErr(res), true
 		}
@@ -862,7 +920,7 @@ func (x *Exec) pnftQuery(f []string) (string, bool) {
 		return list(items), true
 	case "pnft.ByOwner":
 		x.declAddrString(s(f[3]))
-		res := x.C.Query("/panacea.pnft.v2.Query/PNFTsByDenomOwner", &pnfttypes.QueryPNFTsByDenomOwnerRequest{DenomId: s(f[2]), Owner: s(f[3])}, 0)
+		res := x.C.Query("/panacea.pnft.v2.Query/PNFTsByDenomOwner", &pnfttypes.QueryPNFTsByDenomOwnerRequest{DenomId: s(f[2]), Owner: s(f[3])}, x.qHeight)
 		if res.Code != 0 {
 			return pnftQueryErr(res), true
 		}
@@ -875,7 +933,7 @@ func (x *Exec) pnftQuery(f []string) (string, bool) {
 		}
 		return list(items), true
 	case "pnft.DenomsByOwner":
-		res := x.C.Query("/panacea.pnft.v2.Query/DenomsByOwner", &pnfttypes.QueryDenomsByOwnerRequest{Owner: s(f[2])}, 0)
+		res := x.C.Query("/panacea.pnft.v2.Query/DenomsByOwner", &pnfttypes.QueryDenomsByOwnerRequest{Owner: s(f[2])}, x.qHeight)
 		if res.Code != 0 {
 			return pnftQueryErr(res), true
 		}
@@ -887,7 +945,7 @@ func (x *Exec) pnftQuery(f []string) (string, bool) {
 		}
 		return list(items), true
 	case "pnft.Denoms":
-		res := x.C.Query("/panacea.pnft.v2.Query/Denoms", &pnfttypes.QueryDenomsRequest{Pagination: pageReq(f[2:])}, 0)
+		res := x.C.Query("/panacea.pnft.v2.Query/Denoms", &pnfttypes.QueryDenomsRequest{Pagination: pageReq(f[2:])}, x.qHeight)
 		if res.Code != 0 {
 			return pnftQueryErr(res), true
 		}
@@ -923,7 +981,7 @@ func (x *Exec) query(f []string) string {
 	switch f[1] {
 	case "aol.Topics":
 		x.declAddrString(s(f[2]))
-		res := x.C.Query("/panacea.aol.v2.Query/Topics", &aoltypes.QueryTopicsRequest{OwnerAddress: s(f[2]), Pagination: pageReq(f[3:])}, 0)
+		res := x.C.Query("/panacea.aol.v2.Query/Topics", &aoltypes.QueryTopicsRequest{OwnerAddress: s(f[2]), Pagination: pageReq(f[3:])}, x.qHeight)
 		if res.Code != 0 {
 			return queryErrClass(res)
 		}
@@ -932,7 +990,7 @@ func (x *Exec) query(f []string) string {
 		return pageResToks(r.TopicNames, r.Pagination)
 	case "aol.Writers":
 		x.declAddrString(s(f[2]))
-		res := x.C.Query("/panacea.aol.v2.Query/Writers", &aoltypes.QueryWritersRequest{OwnerAddress: s(f[2]), TopicName: s(f[3]), Pagination: pageReq(f[4:])}, 0)
+		res := x.C.Query("/panacea.aol.v2.Query/Writers", &aoltypes.QueryWritersRequest{OwnerAddress: s(f[2]), TopicName: s(f[3]), Pagination: pageReq(f[4:])}, x.qHeight)
 		if res.Code != 0 {
 			return queryErrClass(res)
 		}
@@ -948,7 +1006,7 @@ func (x *Exec) query(f []string) string {
 		off, err := strconv.ParseUint(f[4], 10, 64)
 		must(err)
 		x.declAddrString(s(f[2]))
-		res := x.C.Query("/panacea.aol.v2.Query/Record", &aoltypes.QueryRecordRequest{OwnerAddress: s(f[2]), TopicName: s(f[3]), Offset: off}, 0)
+		res := x.C.Query("/panacea.aol.v2.Query/Record", &aoltypes.QueryRecordRequest{OwnerAddress: s(f[2]), TopicName: s(f[3]), Offset: off}, x.qHeight)
 		if res.Code != 0 {
 			return queryErrClass(res)
 		}
@@ -957,7 +1015,7 @@ func (x *Exec) query(f []string) string {
 		return joinSp("Q", "ok", "R", tok(r.Record.Key), tok(r.Record.Value), strconv.FormatInt(r.Record.NanoTimestamp, 10), toks(r.Record.WriterAddress))
 	case "aol.Topic":
 		x.declAddrString(s(f[2]))
-		res := x.C.Query("/panacea.aol.v2.Query/Topic", &aoltypes.QueryTopicRequest{OwnerAddress: s(f[2]), TopicName: s(f[3])}, 0)
+		res := x.C.Query("/panacea.aol.v2.Query/Topic", &aoltypes.QueryTopicRequest{OwnerAddress: s(f[2]), TopicName: s(f[3])}, x.qHeight)
 		if res.Code != 0 {
 			return queryErrClass(res)
 		}
@@ -965,7 +1023,7 @@ func (x *Exec) query(f []string) string {
 		must(r.Unmarshal(res.Value))
 		return joinSp("Q", "ok", "T", toks(r.Topic.Description), strconv.FormatUint(r.Topic.TotalRecords, 10), strconv.FormatUint(r.Topic.TotalWriters, 10))
 	case "did.DID":
-		res := x.C.Query("/panacea.did.v2.Query/DID", &didtypes.QueryDIDRequest{DidBase64: base64Std(untok(f[2]))}, 0)
+		res := x.C.Query("/panacea.did.v2.Query/DID", &didtypes.QueryDIDRequest{DidBase64: base64Std(untok(f[2]))}, x.qHeight)
 		if res.Code != 0 {
 			c := queryErrClass(res)
 			if c == "Q err 5" {
@@ -982,7 +1040,7 @@ func (x *Exec) query(f []string) string {
 	case "aol.Writer":
 		x.declAddrString(s(f[2]))
 		x.declAddrString(s(f[4]))
-		res := x.C.Query("/panacea.aol.v2.Query/Writer", &aoltypes.QueryWriterRequest{OwnerAddress: s(f[2]), TopicName: s(f[3]), WriterAddress: s(f[4])}, 0)
+		res := x.C.Query("/panacea.aol.v2.Query/Writer", &aoltypes.QueryWriterRequest{OwnerAddress: s(f[2]), TopicName: s(f[3]), WriterAddress: s(f[4])}, x.qHeight)
 		if res.Code != 0 {
 			return queryErrClass(res)
 		}
